@@ -249,6 +249,16 @@ def build_cases(tier, rnd):
             for o in "+-*/%":
                 if rnd.random() < (0.35 if tier != "thorough" else 1.0):
                     cases.append(("%s %s %s" % (gal.src(a), o, gal.src(b)), gallina(T("bin", o, lit(a), lit(b))), [], "bigint"))
+    # comparisons of ints that are neighbours beyond 2^53 (and in, chains): exact, never through a binary fraction -------
+    near = [2 ** 53, 2 ** 53 + 1, 2 ** 63, 2 ** 63 + 1, 2 ** 63 + 2, 10 ** 30, 10 ** 30 + 1, -(2 ** 63) - 1, -(2 ** 63) - 2, 5, 6]
+    for a in near:
+        for b in near:
+            if abs(a - b) <= 2:
+                for o in RELOPS:
+                    cases.append(("%s %s %s" % (gal.src(a), o, gal.src(b)), gallina(T("chain", lit(a), [(o, lit(b))])), [], "bigcmp"))
+                cases.append(("%s < %s <= %s" % (gal.src(a), gal.src(b), gal.src(b + 1)), gallina(T("chain", lit(a), [("<", lit(b)), ("<=", lit(b + 1))])), [], "bigcmp"))
+                cases.append(("v0 < v1 or v0 == v1 or v0 > v1", gallina(T("or", [T("chain", T("var", 0), [("<", T("var", 1))]), T("chain", T("var", 0), [("==", T("var", 1))]),
+                                                                               T("chain", T("var", 0), [(">", T("var", 1))])])), [a, b], "bigcmp"))
     # random trees ---------------------------------------------------------------
     n = 2500 if tier != "thorough" else 30000
     for i in range(n):
